@@ -1301,10 +1301,17 @@ pub fn run(tier: &str) -> i32 {
   // boundary values of the scroll and window registers over three extreme video RAM / OAM
   // contents, and a whole frame plus one line elapses.
   {
-    const SCY: [u8; 4] = [0x00, 0x80, 0xF8, 0xFF];
-    const SCX: [u8; 4] = [0x00, 0x07, 0x60, 0xFF];
-    const WX: [u8; 4] = [0x00, 0x07, 0xA6, 0xFF];
-    const WY: [u8; 3] = [0x00, 0x8F, 0xFF];
+    const SCY_Q: [u8; 4] = [0x00, 0x80, 0xF8, 0xFF];
+    const SCX_Q: [u8; 4] = [0x00, 0x07, 0x60, 0xFF];
+    const WX_Q: [u8; 4] = [0x00, 0x07, 0xA6, 0xFF];
+    const WY_Q: [u8; 3] = [0x00, 0x8F, 0xFF];
+    const SCY_T: [u8; 8] = [0x00, 0x01, 0x70, 0x80, 0xF0, 0xF8, 0xFE, 0xFF];
+    const SCX_T: [u8; 8] = [0x00, 0x01, 0x07, 0x08, 0x60, 0x9F, 0xF8, 0xFF];
+    const WX_T: [u8; 8] = [0x00, 0x06, 0x07, 0x08, 0xA5, 0xA6, 0xA7, 0xFF];
+    const WY_T: [u8; 5] = [0x00, 0x01, 0x8F, 0x90, 0xFF];
+    let (scy_v, scx_v, wx_v, wy_v): (&[u8], &[u8], &[u8], &[u8]) = if thorough { (&SCY_T, &SCX_T, &WX_T, &WY_T) } else { (&SCY_Q, &SCX_Q, &WX_Q, &WY_Q) };
+    let hexs = |v: &[u8]| v.iter().map(|x| format!("{:02X}", x)).collect::<Vec<_>>().join(",");
+    let grid = format!("SCY {{{}}} x SCX {{{}}} x WX {{{}}} x WY {{{}}}", hexs(scy_v), hexs(scx_v), hexs(wx_v), hexs(wy_v));
     const FILLS: [&str; 3] = ["all-00", "all-FF", "pattern+extreme-objects"];
     let header = header_bytes(0x13, 0x01, 0x03);
     let path = write_sparse_rom_file(4 * 0x4000, &[(0x100, &header[0x100..0x150])]);
@@ -1320,7 +1327,7 @@ pub fn run(tier: &str) -> i32 {
         let core = &mut core_box;
         let lcdc = (case % 256) as u8;
         let fill = (case / 256) as usize;
-        ctx.sample(|| J::obj().set("stage", J::s("display-registers-then-a-frame")).set("lcdc", J::s(format!("{:02X}", lcdc))).set("content", J::s(FILLS[fill])).set("grid", J::s("SCY {00,80,F8,FF} x SCX {00,07,60,FF} x WX {00,07,A6,FF} x WY {00,8F,FF}; 70 224 + 456 clocks in batches of 456")));
+        ctx.sample(|| J::obj().set("stage", J::s("display-registers-then-a-frame")).set("lcdc", J::s(format!("{:02X}", lcdc))).set("content", J::s(FILLS[fill])).set("grid", J::s(format!("{}; 70 224 + 456 clocks in batches of 456", grid))));
         let m = &mut core.memory as *mut MemoryAreas;
         // contents are written once, with the display off (they live outside the device block)
         core.memory.io = crate::devices::io::IO::new();
@@ -1341,10 +1348,10 @@ pub fn run(tier: &str) -> i32 {
             memory_write_byte(m, 0xFE00 + i * 4 + k, o[k as usize]);
           }
         }
-        for scy in SCY {
-          for scx in SCX {
-            for wx in WX {
-              for wy in WY {
+        for &scy in scy_v {
+          for &scx in scx_v {
+            for &wx in wx_v {
+              for &wy in wy_v {
                 core.memory.io = crate::devices::io::IO::new();
                 core.memory.oam_dma = None;
                 memory_write_byte(m, 0xFF42, scy);
@@ -1370,12 +1377,12 @@ pub fn run(tier: &str) -> i32 {
         let fill = (case / 256) as usize;
         (
           format!("C11 cfg=display-registers-then-a-frame content={} access=time region=io kind={}", FILLS[fill], how),
-          J::obj().set("case", J::obj().set("lcdc", J::s(format!("{:02X}", lcdc))).set("content", J::s(FILLS[fill])).set("what", J::s("video RAM and OAM filled through the bus with the display off; for SCY {00,80,F8,FF} x SCX {00,07,60,FF} x WX {00,07,A6,FF} x WY {00,8F,FF}: SCY, SCX, WY, WX, palettes and this LCDC value written, then 155 x 456 clocks"))),
+          J::obj().set("case", J::obj().set("lcdc", J::s(format!("{:02X}", lcdc))).set("content", J::s(FILLS[fill])).set("what", J::s(format!("video RAM and OAM filled through the bus with the display off; for {}: SCY, SCX, WY, WX, palettes and this LCDC value written, then 155 x 456 clocks", grid)))),
         )
       },
     );
     let _ = std::fs::remove_file(&path);
-    let c = rep.add_stage("display-registers-then-a-frame", "every LCDC value x SCY {00,80,F8,FF} x SCX {00,07,60,FF} x WX {00,07,A6,FF} x WY {00,8F,FF} x 3 video RAM / OAM contents (all 00, all FF, a pattern with tile indices 80/7F.. and 40 objects on the screen edges), written through the bus, then a whole frame and a line of time (155 x 456 clocks)", r);
+    let c = rep.add_stage("display-registers-then-a-frame", &format!("every LCDC value x {} x 3 video RAM / OAM contents (all 00, all FF, a pattern with tile indices 80/7F.. and 40 objects on the screen edges), written through the bus, then a whole frame and a line of time (155 x 456 clocks)", grid), r);
     totals[C_PERFORMED] += c[0];
   }
 
